@@ -373,6 +373,16 @@ func recursiveFixture() string {
 		os.WriteFile(d+"/t/sub/b c", []byte("beta-beta"), 0o644)
 		os.WriteFile(d+"/t/sub/empty", nil, 0o644)
 		os.Symlink("../a.txt", d+"/t/sub/link")
+		// roots of other kinds for imports that start at a file or a symlink
+		os.MkdirAll(d+"/roots", 0o755)
+		big := make([]byte, 256*1024+7)
+		for i := range big {
+			big[i] = byte(i*31 + i/253)
+		}
+		os.WriteFile(d+"/roots/two-chunks.bin", big, 0o644)
+		os.WriteFile(d+"/roots/small.txt", []byte("a file that is the root of the import"), 0o644)
+		os.WriteFile(d+"/roots/empty", nil, 0o644)
+		os.Symlink("small.txt", d+"/roots/link")
 		fixtureDir = d
 	})
 	return fixtureDir + "/t"
